@@ -422,7 +422,6 @@ func c17SameGetName(a, b ssa.Value) bool {
 	return len(ca.Call.Args) == 1 && len(cb.Call.Args) == 1 && ca.Call.Args[0] == cb.Call.Args[0]
 }
 
-
 // c17GenerateTable extracts the decision of isFileToGenerate as a truth table over its atomic predicates and
 // compares it with the table the property demands:
 //
@@ -562,7 +561,6 @@ func c17GenerateTable(c *Ctx) {
 	c.Ob(rule, "isFileToGenerate/truth-table", fr.Decl.Pos(), bad == "", true,
 		"%d consistent assignments of (isImport, includeImports, includeWKT, isWKT, set nil-ness, memberships) evaluated on the extracted decision; first disagreement with generate = !isImport || (includeImports && !(isWKT && !includeWKT) && !inUsed && !inNonImportElsewhere), recorded = generate && used != nil: %s", n, bad)
 }
-
 
 // callSorts: fn is a sort of the standard library (sort.*, slices.Sort*), or a function of the module whose body
 // calls one (a sorting producer such as slicesext.MapKeysToSortedSlice), followed to the given depth.
